@@ -38,13 +38,13 @@ axiom('radd.len', forall([r_, q_], T.rlen(radd(r_, q_)) == T.rlen(r_), [radd(r_,
 axiom('radd.at', forall([r_, q_, i_], T.rat(radd(r_, q_), i_) == T.rat(r_, i_) + T.rat(q_, i_),
                         [T.rat(radd(r_, q_), i_)]), ['radd'], 'numpy')
 axiom('rscale.len', forall([x_, r_], T.rlen(rscale(x_, r_)) == T.rlen(r_), [rscale(x_, r_)]), ['rscale'], 'numpy')
-axiom('rscale.at', forall([x_, r_, i_], T.rat(rscale(x_, r_), i_) == x_ * T.rat(r_, i_), [T.rat(rscale(x_, r_), i_)]),
+axiom('rscale.at', forall([x_, r_, i_], T.rat(rscale(x_, r_), i_) == T.rmul(x_, T.rat(r_, i_)), [T.rat(rscale(x_, r_), i_)]),
       ['rscale'], 'numpy')
 axiom('rshift.len', forall([x_, r_], T.rlen(rshift(r_, x_)) == T.rlen(r_), [rshift(r_, x_)]), ['rshift'], 'numpy')
 axiom('rshift.at', forall([x_, r_, i_], T.rat(rshift(r_, x_), i_) == T.rat(r_, i_) + x_, [T.rat(rshift(r_, x_), i_)]),
       ['rshift'], 'numpy')
 axiom('rmul.len', forall([r_, q_], T.rlen(rmul(r_, q_)) == T.rlen(r_), [rmul(r_, q_)]), ['rmul'], 'numpy')
-axiom('rmul.at', forall([r_, q_, i_], T.rat(rmul(r_, q_), i_) == T.rat(r_, i_) * T.rat(q_, i_),
+axiom('rmul.at', forall([r_, q_, i_], T.rat(rmul(r_, q_), i_) == T.rmul(T.rat(r_, i_), T.rat(q_, i_)),
                         [T.rat(rmul(r_, q_), i_)]), ['rmul'], 'numpy')
 
 
